@@ -168,7 +168,7 @@ type kase struct {
 }
 
 func detail(k *kase, extra map[string]any) map[string]any {
-	d := map[string]any{"family": k.p.Family, "variant": k.variant, "source": k.src, "wire": k.wire,
+	d := map[string]any{"note": k.p.Note, "family": k.p.Family, "variant": k.variant, "source": k.src, "wire": k.wire,
 		"natives": k.p.Natives, "impl_verdict": k.impl.verdict(), "impl_error": k.impl.Raw, "impl_tables": k.impl.Tables,
 		"impl_panic": k.impl.Panic}
 	for a, b := range extra {
@@ -196,6 +196,11 @@ func userNames(p *Prog) []string {
 	fixed := func(s string) bool {
 		if s == "" || specialVars[s] || s == guardVar || s == "O_" || s == "M_" || s == "N_" || s == "K_" {
 			return true
+		}
+		for _, a := range positionNames {
+			if a == s {
+				return true
+			}
 		}
 		for _, a := range builtinArrays {
 			if a == s {
@@ -279,6 +284,7 @@ func main() {
 	}
 	var bases []*Prog
 	bases = append(bases, systematic()...)
+	bases = append(bases, positionPrograms()...)
 	for i := 0; i < nRandom; i++ {
 		switch i % 3 {
 		case 0:
@@ -296,7 +302,7 @@ func main() {
 		bi := len(ks)
 		ks = append(ks, &kase{p: p, base: bi})
 		n := len(p.Items)
-		if n > 8 {
+		if n > 8 || strings.HasPrefix(p.Family, "position-") {
 			// deep chains: only the reversed order is in the systematic list already
 			continue
 		}
